@@ -391,6 +391,8 @@ def run(tier):
     rep.trust('pyvc (havoc/invariant loops, length-only abstraction of byte slices), z3; CPython + the tools themselves for the bounded composition')
     rep.assume('decoders looked up in Disassembler.ops return 1 <= length <= 4 (sizes enumerated completely under C07); RST-argument handling (handle_rst) is not under VC')
     rep.assume('CtlParser, SkoolWriter and skool2bin.BinWriter are text pipelines outside the VC generator: the end-to-end statement is bounded only; per-statement re-assembly is C02')
+    from props import decodevc
+    decodevc.check_decode(rep, 'C01')
     check_disassemble(rep)
     check_defb_lines(rep)
     quick = tier == 'quick'
